@@ -10,6 +10,7 @@ pub mod alpha;
 pub mod subj;
 pub mod mvr;
 pub mod refs;
+pub mod ind;
 
 pub struct ReplayReq {
 	pub system: String,
